@@ -28,8 +28,8 @@ def run(tier, seed):
                              extras=("none", "free", "clr", "w1"), xkinds=("r", "w", "e"), script_until=3)
     quick_gen = [
         # every 5-step history of connect / enable / write / loop on a connecting socket (immediate callbacks): the bounded
-        # model check of the quick tier; the histories that meet the known finding's trigger are its canonical scenarios
-        dict(name="C19_conn_exh", consts=known["consts"], known_keys={8: "sock-cb-before-connected"}, take=6, invariants=inv),
+        # model check of the quick tier (every 4th history is replayed); the histories that meet the known finding's trigger are its canonical scenarios
+        dict(name="C19_conn_exh", consts=known["consts"], known_keys={8: "sock-cb-before-connected"}, take=6, invariants=inv, sample=4),
         dict(name="C19_conn_refused_" + ("def" if df else "imm"), consts=C("refused", df, 6), simulate=12),
         dict(name="C19_pair_free", consts=PF(9), simulate=40),
         dict(name="C19_sock_free", consts=SF(9), simulate=20) if seed % 2 else dict(name="C19_filt_free", consts=FF(9), simulate=20),
